@@ -1,7 +1,7 @@
 """R-tmpl: instantiate the query templates of macros/src/generate/query.rs for a fixed schema.
 
 The argument of the `queries.push(quote!( .. ))` of a generator function is taken as TEXT (with its origin markers) and its
-#holes are filled the way `quote!` fills them for the schema of contracts/tmpl_schema.rs:
+#holes are filled the way `quote!` fills them for the schema of gv/worldgen.py (SCHEMA):
     #Archetype      -> the schema archetype type          #get_archetype -> the FetchMode::Mut arm of `let get_archetype = ..`
     #get_slices     -> the FetchMode::Mut arm of `let get_slices = ..`      #world -> `world`, #archetype -> snake-case field
     #bind           -> the quote! texts of iter_bind_mut for the schema's parameter list (Entity<_>, EntityDirect<_>, &mut CompX)
@@ -108,4 +108,78 @@ def template_blocks(raw, gen_fn, bind_fn, archetypes, params, decide_prefix, log
             raise ExtractError('R-tmpl: unfilled holes %s in the template of %s' % (sorted(set(left)), gen_fn))
         out.append(t)
         log.rule('R-tmpl', '%s instantiated for %s' % (gen_fn, a['type']))
+    return out
+
+
+def find_template(raw, world_name, archetypes, params, decide_prefix, key_expr, log):
+    """R-tmpl for ecs_find! (generate_query_find, FetchMode::Mut): the per-archetype arms of `queries.push(quote!( .. ))` are
+    instantiated for every schema archetype and spliced into the wrapper `{ match #Total::try_from(#entity).expect(..) { #(#queries)* _ => None, } }`
+    (text of the generator's final `Ok(quote!( .. ))`).  archetypes: dicts(type = R-tag marker type, name, field, suffix)."""
+    msk = rs.mask(raw)
+    f = fn_body(raw, msk, 'generate_query_find')
+    m = re.compile(r'queries\.push\s*\(\s*quote!\s*\(').search(msk, f.body_open, f.body_close)
+    if not m:
+        raise ExtractError('R-tmpl: queries.push(quote!( not found in generate_query_find')
+    close = rs.match_close(msk, m.end() - 1)
+    arm_tmpl = raw[m.end():close]
+    get_archetype = let_match_arm(raw, msk, f, 'get_archetype', 'FetchMode::Mut')
+    fetch = let_match_arm(raw, msk, f, 'fetch', 'FetchMode::Mut')
+    tm = re.compile(r'let\s+__WorldSelectTotal\s*=\s*format_ident!\s*\(\s*"([^"]*)"\s*,\s*world_data\.name\s*\)').search(msk, f.body_open, f.body_close)
+    if not tm:
+        raise ExtractError('R-tmpl: `let __WorldSelectTotal = format_ident!(..)` not found in generate_query_find')
+    fm = re.search(r'format_ident!\s*\(\s*"([^"]*)"', raw[tm.start():tm.end()])
+    total = fm.group(1).replace('{}', world_name)
+    rm = re.compile(r'let\s+resolved_entity\s*=\s*quote_spanned!\s*\(\s*Span::mixed_site\(\)\s*=>\s*(\w+)\s*\)').search(msk, f.body_open, f.body_close)
+    if not rm:
+        raise ExtractError('R-tmpl: `let resolved_entity = quote_spanned!(..)` not found')
+    resolved = rm.group(1)
+    bf = fn_body(raw, msk, 'find_bind_mut')
+    binds = []
+    for kind, comp, is_mut in params:
+        t = bind_text(raw, msk, bf, kind if kind != 'Component' else 'Component')
+        if kind == 'Component':
+            t = t.replace('#ident', comp)
+        binds.append(t)
+    # the wrapper: Ok(quote!( { match .. } ))
+    w = re.compile(r'Ok\s*\(\s*quote!\s*\(').search(msk, close, f.body_close)
+    if not w:
+        raise ExtractError('R-tmpl: the wrapper Ok(quote!( .. )) was not found in generate_query_find')
+    wclose = rs.match_close(msk, w.end() - 1)
+    wrapper = raw[w.end():wclose]
+    arms = []
+    for a in archetypes:
+        t = arm_tmpl
+        t2 = re.sub(r'[ \t]*let\s+mut\s+closure\s*=\s*\|[^\n]*#body\s*;', '// (user closure definition dropped: R-tmpl)', t)
+        if t2.count('R-tmpl)') != 2:
+            raise ExtractError('R-tmpl: expected two closure definition lines in the ecs_find! arm template')
+        t = t2
+        call = re.compile(r'closure\s*\(\s*#\(\s*#attrs\s+#bind\s*\)\s*,\s*\*\s*\)')
+        if len(call.findall(t)) != 2:
+            raise ExtractError('R-tmpl: closure calls not found in the ecs_find! arm template')
+        t = call.sub('%s_%s(Ghost(tmpl_row), %s)' % (decide_prefix, a['suffix'], ', '.join(binds)), t)
+        t = t.replace('#__WorldSelectTotal::#ArchetypeDirect', '%s::%sDirect' % (total, a['name']))
+        t = t.replace('#__WorldSelectTotal::#Archetype', '%s::%s' % (total, a['name']))
+        t = t.replace('#resolved_entity', resolved)
+        t = t.replace('#fetch', fetch).replace('#get_archetype', get_archetype).replace('#resolved_entity', resolved)
+        t = t.replace('#Archetype', a['type']).replace('#world', 'world').replace('#archetype', a['field'])
+        t = t.replace('::gecs::__internal::', '__internal::')
+        while True:
+            am = re.search(r'type\s+MatchedArchetype\s*=\s*([\w:<>, ]+?)\s*;', t)
+            if not am:
+                break
+            t = t[:am.start()] + '// (alias MatchedArchetype = %s inlined: R-tmpl-alias)' % am.group(1) + t[am.end():]
+        t = re.sub(r'\bMatchedArchetype\b(?! =)', a['type'], t)
+        left = re.findall(r'#\w+', rs.mask(t))
+        if left:
+            raise ExtractError('R-tmpl: unfilled holes %s in the ecs_find! arm template' % sorted(set(left)))
+        arms.append(t)
+        log.rule('R-tmpl', 'generate_query_find instantiated for %s' % a['name'])
+    qm = re.search(r'#\(\s*#queries\s*\)\s*\*', wrapper)
+    if not qm:
+        raise ExtractError('R-tmpl: #(#queries)* not found in the ecs_find! wrapper')
+    out = wrapper[:qm.start()] + '\n'.join(arms) + wrapper[qm.end():]
+    out = out.replace('#__WorldSelectTotal', total).replace('#entity', key_expr)
+    left = re.findall(r'#\w+', rs.mask(out))
+    if left:
+        raise ExtractError('R-tmpl: unfilled holes %s in the ecs_find! wrapper' % sorted(set(left)))
     return out
